@@ -98,7 +98,7 @@ VERIF_TARGET(c58_unrequested, nullptr, 16, 120,
     const int T0 = 104 + k;
     const int side_first_h = (w == 0 ? 105 : 101);
     int m = s.chance(60) ? s.range<int>(1, NSIDE) : NSIDE; // side headers announced up front
-    unsigned minsel = s.range<unsigned>(0, 4);
+    unsigned minsel = s.pick<unsigned>({0, 0, 0, 1, 1, 2, 0, 3, 1, 4}); // 0 none, 1 near the tip, 2 near tip+288, 3 anywhere, 4 above everything
     int hm = 0, moff = 0;
     const cpp_int proof = BlockProof(0x207fffff);
     auto work_at = [&](int h) { return proof * (h + 1); }; // genesis has height 0 and counts
@@ -158,10 +158,10 @@ VERIF_TARGET(c58_unrequested, nullptr, 16, 120,
     for (unsigned op = 0; op < nops; ++op) {
         unsigned kind = s.range<unsigned>(0, 9);
         const int T = sim.TipHeight();
-        if (kind <= 5) {
+        if (kind <= 6) {
             // ---- unrequested delivery near a boundary
             unsigned bsel = s.range<unsigned>(0, 3);
-            int d = s.range<int>(-2, 2), h;
+            int d = s.pick<int>({0, -1, 1, 0, -1, 1, -2, 2}), h;
             const char* bname;
             if (bsel == 0) { h = T + d; bname = "work"; }
             else if (bsel == 1) { h = T + 288 + d; bname = "height"; }
@@ -212,14 +212,14 @@ VERIF_TARGET(c58_unrequested, nullptr, 16, 120,
                 if (h == T || h == T + 288 || (minsel > 0 && work_at(h - 1) < minwork)) { near_stored++; st.cls("stored-at-boundary"); }
                 if (h == T) st.cls("stored-equal-work");
             }
-        } else if (kind == 6) {
+        } else if (kind == 7) {
             // ---- the tip advances (requested delivery of the next main-chain block); boundaries move with it unless a side chain took over
             if (main_next >= NMAIN) continue;
             auto d = sim.Deliver(g_cache.main_ext[main_next++]);
             assert(d.processed);
             st.mix(uint64_t(900)); st.cls("tip-advance");
             st.note("main block h=", 104 + main_next, " delivered, tip h=", sim.TipHeight());
-        } else if (kind == 7) {
+        } else if (kind == 8) {
             if (dropped.empty()) continue;
             int i = dropped[s.index(dropped.size())];
             requested(i, "redelivery");
